@@ -67,7 +67,7 @@ package keeper
 //@   // C04: a destination's state is found by its full identity (type and id), the same pair the store key is built from
 //@   ensures [same-account] pos >= 0 ==> (*states)[pos].Account.Id == account.Id && (*states)[pos].Account.Type == account.Type
 //@   ensures pos == -1 ==> (forall k: int :: {(*states)[k].Account} 0 <= k && k < len(*states) ==> (*states)[k].Account.Id != account.Id || (*states)[k].Account.Type != account.Type)
-//@   prop C03 C04 C10
+//@   prop C03 C04 C10 C14
 //@ loop findAccountState#1
 //@   invariant -1 <= \i - 1 && \i <= len(*states)
 //@   invariant forall k: int :: {(*states)[k].Account} 0 <= k && k < \i ==> (*states)[k].Account.Id != account.Id || (*states)[k].Account.Type != account.Type
@@ -76,7 +76,7 @@ package keeper
 //@   ensures -1 <= pos && pos < len(*states)
 //@   ensures pos >= 0 ==> (*states)[pos].Burn
 //@   ensures pos == -1 ==> (forall k: int :: {(*states)[k].Burn} 0 <= k && k < len(*states) ==> !(*states)[k].Burn)
-//@   prop C03 C04 C10
+//@   prop C03 C04 C10 C01 C14
 //@ loop findBurnState#1
 //@   invariant 0 <= \i && \i <= len(*states)
 //@   invariant forall k: int :: {(*states)[k].Burn} 0 <= k && k < \i ==> !(*states)[k].Burn
@@ -87,7 +87,7 @@ package keeper
 //@   ensures allPositive(coinsToDistributeDec) ==> (forall d: str :: {res[d]} {coinsToDistributeDec[d]} res[d] == truncInt(coinsToDistributeDec[d] * sharePercent))
 //@   ensures !allPositive(coinsToDistributeDec) ==> res == zeroCoins()
 //@   ensures sharePercent >= 0 ==> (forall d: str :: {res[d]} res[d] >= 0)
-//@   prop C04 C10
+//@   prop C04 C10 C01 C03 C14
 
 //@ // sum of the amounts of the first n Distribution events of a list (ptrs: the list's element row, amt: Distribution.Amount column)
 //@ spec func sumDist(ptrs [int]int, amt [int][str]int, d str, n int) int = n <= 0 ? 0 : sumDist(ptrs, amt, d, n - 1) + amt[ptrs[n - 1]][d]
@@ -181,7 +181,7 @@ package keeper
 //@         - tsumOf(coinsToDistributeDec[d], subDistributor.Destinations, len(subDistributor.Destinations.Shares)) - truncInt(coinsToDistributeDec[d] * subDistributor.Destinations.BurnShare))
 //@   ensures [burn-amount] burn != nil ==> (forall d: str :: {burn.Amount[d]} burn.Amount[d] == truncInt(coinsToDistributeDec[d] * subDistributor.Destinations.BurnShare))
 //@   ensures [burn-reported] burn == nil ==> (forall d: str :: truncInt(coinsToDistributeDec[d] * subDistributor.Destinations.BurnShare) == 0)
-//@   prop C03 C04 C18 C01 C10
+//@   prop C03 C04 C18 C01 C10 C14
 //@ loop Keeper.StartDistributionProcess#1
 //@   uses forall y: int :: {truncInt(y)} truncBounds(y)
 //@   invariant arr(*localRemains) == old(arr(*states)) || freshSlice(*localRemains)
@@ -213,7 +213,7 @@ package keeper
 //@ func getRamainsSum(states) (sum)
 //@   requires states != nil && off(*states) == 0
 //@   ensures forall d: str :: {sum[d]} sum[d] == sumRem(remRow(*states), d, len(*states))
-//@   prop C03 C10
+//@   prop C03 C10 C01 C04 C14
 //@ loop getRamainsSum#1
 //@   invariant 0 <= \i && \i <= len(*states)
 //@   invariant forall d: str :: {sum[d]} sum[d] == sumRem(remRow(*states), d, \i)
@@ -224,7 +224,7 @@ package keeper
 //@   requires remainsNonNeg(states)
 //@   uses forall d: str :: {$bal[MAIN()][d]} sumRemNonNeg(remRow(states), d, len(states))
 //@   ensures forall d: str :: {res[d]} res[d] == unbooked(states, d)
-//@   prop C03 C10
+//@   prop C03 C10 C01 C04 C14
 
 //@ // a source sweep either moves the source's whole balance to the main account and reports it, or fails, moves nothing and reports nothing (C14)
 //@ pred sweptAll(src, res) = (forall d: str :: {res[d]} res[d] == old($bal[src][d]) * P)
@@ -258,7 +258,7 @@ package keeper
 //@   ensures statesHaveAccounts(states) && remainsNonNeg(states)
 //@   ensures forall d: str :: {res[d]} res[d] + sumRem(remRow(states), d, len(states)) == coinsToDistribute[d] + old(sumRem(remRow(states), d, len(states)))
 //@   ensures forall d: str :: {res[d]} res[d] >= coinsToDistribute[d]
-//@   prop C03 C14 C10
+//@   prop C03 C14 C10 C01 C04
 
 //@ // what Account.Validate established for a configured source (and that it is not the distributor's own main account)
 //@ pred sourceOK(src) = (src.Type == "MODULE_ACCOUNT" ==> moduleExists(src.Id) && modaddr(src.Id) != MAIN())
@@ -399,7 +399,7 @@ package keeper
 //@   prop C01
 //@ func checkIfAnyCoinIsGTE1(coins) (r)
 //@   ensures [any-whole-coin] r == anyWhole(coins, len(coins))
-//@   prop C10 C01 C03 C14
+//@   prop C10 C01 C03 C14 C04
 //@ loop checkIfAnyCoinIsGTE1#1
 //@   invariant 0 <= \i && \i <= len(coins) && !anyWhole(coins, \i)
 //@   uses anyWholeMono(coins, \i + 1, len(coins))
